@@ -267,18 +267,35 @@ func (i *Index) RmDesc(d Descriptor) {
 			}
 		}
 	}
+	// when deleting a tag, check if another entry preserves the digest
+	others := false
+	if tag != "" && d.Digest != "" {
+		for _, md := range i.Manifests {
+			if md.Digest == d.Digest && (md.Annotations == nil || md.Annotations[AnnotRefName] != tag) {
+				others = true
+				break
+			}
+		}
+	}
 	found := false
 	for mi := len(i.Manifests) - 1; mi >= 0; mi-- {
 		if d.Digest != "" && i.Manifests[mi].Digest == d.Digest {
 			if tag != "" {
-				// deleting a tag leaves one untagged manifest entry
-				if found && (i.Manifests[mi].Annotations == nil || i.Manifests[mi].Annotations[AnnotRefName] == tag) {
+				// deleting a tag leaves one untagged manifest entry, unless another entry preserves the digest
+				if i.Manifests[mi].Annotations != nil && i.Manifests[mi].Annotations[AnnotRefName] == tag {
+					if found || others {
+						i.Manifests[mi] = i.Manifests[len(i.Manifests)-1]
+						i.Manifests = i.Manifests[:len(i.Manifests)-1]
+					} else {
+						delete(i.Manifests[mi].Annotations, AnnotRefName)
+						found = true
+					}
+				} else if found && len(i.Manifests[mi].Annotations) == 0 {
 					i.Manifests[mi] = i.Manifests[len(i.Manifests)-1]
 					i.Manifests = i.Manifests[:len(i.Manifests)-1]
-				} else if i.Manifests[mi].Annotations != nil && i.Manifests[mi].Annotations[AnnotRefName] == tag {
-					delete(i.Manifests[mi].Annotations, AnnotRefName)
+				} else {
+					found = true
 				}
-				found = true
 			} else {
 				i.Manifests[mi] = i.Manifests[len(i.Manifests)-1]
 				i.Manifests = i.Manifests[:len(i.Manifests)-1]
